@@ -298,8 +298,13 @@ fn execute(prog: Program) -> Outcome {
     if !joined || !w.settle(400, 8_000) {
         // the join itself failing is an election matter (C07) unless the node crashed
         let panics = with(|k| k.panics.clone());
-        if let Some(p) = panics.last() {
-            out.violations.push(Violation::new("sync-crashed", p.location.rsplit('/').next().unwrap_or("?").to_string(), format!("{} at {} (node {:?})", p.message, p.location, p.node)));
+        // the first panic is the cause, later ones are usually its consequences
+        if let Some(p) = panics.first() {
+            out.violations.push(Violation::new(
+                "sync-crashed",
+                p.location.rsplit('/').next().unwrap_or("?").to_string(),
+                format!("{} at {} (node {:?}); all panics: {:?}", p.message, p.location, p.node, panics.iter().map(|q| format!("{} @ {}", q.message.chars().take(60).collect::<String>(), q.location)).collect::<Vec<_>>()),
+            ));
             return out;
         }
         out.setup = Err("setup_unstable".into());
@@ -541,6 +546,7 @@ fn execute_fresh(prog: Fresh) -> Outcome {
     }
     out.setup = Ok(());
     // the new node
+    with(|k| k.net.line_log = Some(Vec::new()));
     w.boot(1, &addrs);
     let during = prog.during.clone();
     let d0c = d0.clone();
@@ -576,7 +582,22 @@ fn execute_fresh(prog: Fresh) -> Outcome {
     };
     let pd = dump_node(&d0);
     let od = dump_node(&d1);
-    let restarted = if prog.primary_restart.is_some() { "primary-restarted" } else { "primary-up" };
+    // what the new node asked the primary for: everything (since 0), or -- the recorded self-link
+    // finding: it replayed its own log to itself first -- only what is newer than a time it made up
+    let asked: Vec<String> = with(|k| {
+        k.net
+            .line_log
+            .as_ref()
+            .map(|l| l.iter().filter(|r| r.to == Some(0) && r.from == Some(1) && r.line.starts_with("replicate-since")).map(|r| r.line.clone()).collect())
+            .unwrap_or_default()
+    });
+    let asked_full = asked.iter().any(|l| l.trim_end().ends_with(" 0"));
+    let restarted = match (prog.primary_restart.is_some(), asked_full) {
+        (true, true) => "primary-restarted:asked-everything",
+        (true, false) => "primary-restarted:asked-since",
+        (false, true) => "primary-up:asked-everything",
+        (false, false) => "primary-up:asked-since",
+    };
     for (db, (_, keys)) in pd.iter() {
         if db == "$admin" {
             continue;
